@@ -50,7 +50,8 @@ def run_cvc5(smt2, timeout_s=CVC5_TIMEOUT_S):
 
 
 def _outdir():
-    d = os.path.join(os.path.dirname(os.path.dirname(os.path.abspath(__file__))), "out", "smt")
+    d = os.path.join(os.environ.get("PVC_OUT") or os.path.join(
+        os.path.dirname(os.path.dirname(os.path.abspath(__file__))), "out"), "smt")
     os.makedirs(d, exist_ok=True)
     return d
 
@@ -61,40 +62,39 @@ def prove(assumptions, goal, timeout_ms=None, use_cvc5=True, cross_check=False, 
     t0 = time.time()
     if isinstance(goal, bool):
         goal = z3.BoolVal(goal)
-    s = z3.Solver()
-    s.set("timeout", timeout_ms)
-    for a in assumptions:
-        s.add(a)
-    s.add(z3.Not(goal))
-    r = s.check()
-    dt = time.time() - t0
-    out = {"backend": "z3-" + z3.get_version_string(), "seconds": dt, "model": None, "reason": ""}
-    if r == z3.unsat:
-        out["verdict"] = Verdict.PROVED
-    elif r == z3.sat:
-        out["verdict"] = Verdict.REFUTED
-        out["model"] = s.model()
-    else:
-        out["verdict"] = Verdict.UNKNOWN
-        out["reason"] = s.reason_unknown()
-        # second attempt: nlsat-free tactic pipeline
-        try:
-            t = z3.Then("simplify", "solve-eqs", "smt")
-            s2 = t.solver()
-            s2.set("timeout", timeout_ms)
-            for a in assumptions:
-                s2.add(a)
-            s2.add(z3.Not(goal))
-            r2 = s2.check()
-            if r2 == z3.unsat:
+    out = {"backend": "z3-" + z3.get_version_string(), "seconds": 0.0, "model": None, "reason": "",
+           "verdict": Verdict.UNKNOWN}
+    # portfolio: plain SMT core first (fast and stable on the row-wise kernel VCs), then the
+    # grounded + UF-abstracted query on nlsat (complete for QF_NRA), then the default tactic
+    stages = [("smt-core", z3.SimpleSolver, min(timeout_ms, 6000)),
+              ("abstracted", None, min(timeout_ms, 10000)),
+              ("default", z3.Solver, timeout_ms),
+              ("smt-core", z3.SimpleSolver, timeout_ms)]
+    for name, mk, tmo in stages:
+        if name == "abstracted":
+            b = prove_abstracted(assumptions, goal, tmo)
+            if b is not None:
                 out["verdict"] = Verdict.PROVED
-                out["backend"] += " (simplify;solve-eqs;smt)"
-            elif r2 == z3.sat:
-                out["verdict"] = Verdict.REFUTED
-                out["model"] = s2.model()
-        except z3.Z3Exception:
-            pass
-        out["seconds"] = time.time() - t0
+                out["backend"] = b
+                break
+            continue
+        s = mk()
+        s.set("timeout", tmo)
+        for a in assumptions:
+            s.add(a)
+        s.add(z3.Not(goal))
+        r = s.check()
+        if r == z3.unsat:
+            out["verdict"] = Verdict.PROVED
+            out["backend"] = "z3-%s (%s)" % (z3.get_version_string(), name)
+            break
+        if r == z3.sat:
+            out["verdict"] = Verdict.REFUTED
+            out["model"] = s.model()
+            out["backend"] = "z3-%s (%s)" % (z3.get_version_string(), name)
+            break
+        out["reason"] = s.reason_unknown()
+    out["seconds"] = time.time() - t0
     if (out["verdict"] == Verdict.UNKNOWN and use_cvc5) or cross_check:
         try:
             res, secs = run_cvc5(_smt2(assumptions, goal))
@@ -127,3 +127,135 @@ def satisfiable(formulas, timeout_ms=5000):
         s.add(f)
     r = s.check()
     return r == z3.sat, (s.model() if r == z3.sat else None), str(r)
+
+
+# ---------------------------------------------------------------------------------------------
+# grounding + abstraction (a sound weakening: valid abstraction => valid original)
+
+def _collect_apps(t, out, seen):
+    stack = [t]
+    while stack:
+        x = stack.pop()
+        i = x.get_id()
+        if i in seen:
+            continue
+        seen.add(i)
+        if z3.is_quantifier(x):
+            continue          # ground terms only
+        if z3.is_app(x):
+            d = x.decl()
+            if d.kind() == z3.Z3_OP_UNINTERPRETED and x.num_args() > 0:
+                out.append(x)
+            stack.extend(x.children())
+
+
+def _body_patterns(q):
+    """uninterpreted applications inside the quantifier body that have a bound variable as a
+    direct argument: [(decl, argument position)]"""
+    pats = []
+    stack = [q.body()]
+    while stack:
+        x = stack.pop()
+        if z3.is_quantifier(x):
+            stack.append(x.body())
+            continue
+        if z3.is_app(x):
+            d = x.decl()
+            if d.kind() == z3.Z3_OP_UNINTERPRETED and x.num_args() > 0:
+                for k in range(x.num_args()):
+                    a = x.arg(k)
+                    if z3.is_var(a):
+                        pats.append((d, k))
+                    elif z3.is_app(a) and a.num_args() == 1 and z3.is_var(a.arg(0)) and \
+                            a.decl().kind() in (z3.Z3_OP_TO_REAL, z3.Z3_OP_TO_INT):
+                        pats.append((d, k))
+            stack.extend(x.children())
+    return pats
+
+
+def ground(assumptions, goal, rounds=3):
+    """replace single-variable universally quantified assumptions by their instances at the
+    ground terms that E-matching would select; other quantified assumptions are dropped"""
+    ground_as = [a for a in assumptions if not z3.is_quantifier(a)]
+    quants = [a for a in assumptions if z3.is_quantifier(a) and a.is_forall() and a.num_vars() == 1]
+    inst_done = set()
+    cur = list(ground_as) + [goal]
+    for _ in range(rounds):
+        apps, seen = [], set()
+        for f in cur:
+            _collect_apps(f, apps, seen)
+        new = []
+        for q in quants:
+            pats = _body_patterns(q)
+            if not pats:
+                continue
+            vs = q.var_sort(0)
+            cands = {}
+            for ap in apps:
+                for d, k in pats:
+                    if ap.decl().eq(d) and ap.num_args() > k:
+                        a = ap.arg(k)
+                        if a.sort() == vs:
+                            cands[a.get_id()] = a
+                        elif z3.is_app(a) and a.num_args() == 1 and a.arg(0).sort() == vs:
+                            cands[a.arg(0).get_id()] = a.arg(0)
+            for tid, t in cands.items():
+                key = (q.get_id(), tid)
+                if key in inst_done:
+                    continue
+                inst_done.add(key)
+                new.append(z3.substitute_vars(q.body(), t))
+        if not new:
+            break
+        ground_as.extend(new)
+        cur = new
+    return ground_as, goal
+
+
+def abstract_ufs(formulas):
+    """replace every ground uninterpreted application by a fresh constant (innermost first,
+    syntactically equal terms share the constant)"""
+    cache = {}
+    names = {}
+
+    def ab(t):
+        i = t.get_id()
+        if i in cache:
+            return cache[i]
+        if z3.is_quantifier(t) or not z3.is_app(t) or t.num_args() == 0:
+            cache[i] = t
+            return t
+        kids = [ab(c) for c in t.children()]
+        d = t.decl()
+        if d.kind() == z3.Z3_OP_UNINTERPRETED:
+            key = (d.name(), tuple(k.get_id() for k in kids))
+            if key not in names:
+                names[key] = z3.Const("abs!%s!%d" % (d.name(), len(names)), t.sort())
+            r = names[key]
+        else:
+            try:
+                r = d(*kids) if kids else t
+            except Exception:  # noqa
+                r = t
+        cache[i] = r
+        return r
+    return [ab(f) for f in formulas]
+
+
+def prove_abstracted(assumptions, goal, timeout_ms):
+    try:
+        gas, g = ground(assumptions, goal)
+        fs = abstract_ufs(gas + [g])
+        ab_as, ab_goal = fs[:-1], fs[-1]
+    except Exception:  # noqa
+        return None
+    for mk in (z3.Solver, z3.SimpleSolver):
+        s = mk()
+        s.set("timeout", timeout_ms)
+        for a in ab_as:
+            s.add(a)
+        s.add(z3.Not(ab_goal))
+        if s.check() == z3.unsat:
+            return "z3-%s (grounded, UF-abstracted %s)" % (z3.get_version_string(),
+                                                            "nlsat" if mk is z3.Solver else "smt")
+    return None
